@@ -166,7 +166,7 @@ PROPS.update({
                "random chains of up to 3 stages with transparent taps between the stages checked at every quiescent point."),
         technique="Lean 4 proof (induction over the chain, per-stage refinement theorems) + model/implementation correspondence with per-stage taps",
         design_ref="DESIGN.md §6 C12"),
-    "C13": dict(adp_prop(["EyeballVerif.Props.C13", "EyeballVerif.Props.C13Flat", "EyeballVerif.Props.PipeSoundU"],
+    "C13": dict(adp_prop(["EyeballVerif.Props.C13", "EyeballVerif.Props.C13Flat", "EyeballVerif.Props.PipeSoundU", "EyeballVerif.Lemmas.PipeBasics"],
         "c13_no_empty_batch: for chains of any length, any fuel and world, polling never yields an empty batch given the vector never publishes an empty message (pollStages_item principle, induction over "
         "the poll loop); c13_mapDiffs_append / c13_mapDiffs_acc: the Vec container's flat_map over a batch = handling its diffs one after the other"),
         claim=("Lean 4 theorems: no stage, alone or in a chain of any length, ever emits an empty batch (c13_no_empty_batch, by induction over the poll loop of the generic stage skeleton, using that commits "
